@@ -58,11 +58,40 @@ def run(cx):
             cx.ob("R32.guarded-descent", "%s|descent#%d-guarded" % (f.id, i), guard is not None,
                   "a child's resolve is entered without the cursor being inside that child's span: the innermost "
                   "node reported can be one that does not contain the cursor", f.loc(t.line))
+        # the node answers with itself only after every child has been examined: each own-node result is
+        # reachable from the false edge of every containment test (none precedes a test)
+        retbase = re.sub(r"<.*", "", f.ret or "")
+        own = sorted({b.i for b in f.blocks for st in b.stmts if st.rv == "aggregate" and st.j.get("agg") == "adt"
+                      and retbase and re.sub(r"<.*", "", st.j.get("adt", "")).endswith(retbase.lstrip("&"))})
+        for k, c in enumerate(cont):
+            try:
+                tt, ft = call_bool_branch(f, c)
+            except AnchorError:
+                continue
+            after = reachable_from(f, ft) | {ft}
+            early = [b for b in own if b not in after]
+            cx.ob("R32.guarded-descent", "%s|own-node-only-after-test#%d" % (f.id, k), not early,
+                  "the node resolves to itself before the child tested at %s has been examined (own-node result in "
+                  "block(s) %s precedes the test): a cursor inside that child resolves to the enclosing node instead of "
+                  "the innermost one" % (f.loc(c.line), early), f.loc(c.line), nontrivial=bool(own))
         # leaf fallback: some return path constructs the node's own path (no recursive call)
         p = path_without(f, 0, f.return_blocks(), [t.bb for t in rec]) if rec else [0]
         cx.ob("R32.guarded-descent", f.id + "|leaf-fallback", p is not None,
               "when no child contains the cursor the node must resolve to itself", f.loc(), nontrivial=bool(rec))
 
+    # ---- R32.nesting-by-construction: grammar functions never build a node span by hand -----------------------
+    pfb = cx.mir("isograph_lang_parser")
+    news = [(g, t) for g in pfb.fns.values() if g.crate == "isograph_lang_parser" and "::tests::" not in g.id
+            for t in g.calls() if term_calls(t, r"common_lang_types::Span::new$")]
+    in_lexer = [(g, t) for g, t in news if g.file.endswith("peekable_lexer.rs")]
+    cx.floor("R32.nesting-by-construction Span::new sites in the bracket helpers (positive control)", len(in_lexer), 3)
+    outside = [(g, t) for g, t in news if not g.file.endswith("peekable_lexer.rs")]
+    cx.ob("R32.nesting-by-construction", "isograph_lang_parser|Span::new-only-in-peekable_lexer", not outside,
+          "a grammar function builds a node span by hand (%s): node spans come from with_embedded_location_result / "
+          "with_span_result, which bracket every token the node consumed, so that each child span lies inside its "
+          "parent's; a hand-made span can leave a child (e.g. an alias) outside its parent, and a cursor on it then "
+          "resolves to the enclosing node" % ["%s:%d" % (g.name, t.line) for g, t in outside],
+          outside[0][0].loc(outside[0][1].line) if outside else "crates/isograph_lang_parser/src/parse_iso_literal.rs")
     # ---- R32.contains: the containment test constrains both ends ------------------------
     sc = fb.one(r"^common_lang_types::(span::)?Span::contains$")
     def fld(o):
